@@ -276,8 +276,10 @@ func runC04(c *core.Ctx, o Options) {
 	}
 	c.Check(len(snd) == 1 && snd[0] == "ServeIncoming" && okRcv && len(rcv) >= 1, "F4", "DefaultHandler.incoming", "ServeIncoming is the only producer; Run (and its drain helper) the only consumer", token.NoPos, fmt.Sprintf("senders %v receivers %v", snd, rcv), fmt.Sprintf("senders %v, receivers %v", snd, rcv))
 	// callers of Reader(), ServeIncoming, Conn.Write: one closure per serve function
+	sitesOf := map[string]map[string][]string{}
 	for _, m := range []struct{ what, method string }{{"Conn.Reader", "Reader"}, {"ServeIncoming", "ServeIncoming"}, {"Conn.Write", "Write"}} {
 		sites := map[string][]string{}
+		sitesOf[m.method] = sites
 		for _, fn := range fns {
 			an.AllInstrs(fn, func(in ssa.Instruction) {
 				cc := an.CallOf(in)
@@ -300,6 +302,21 @@ func runC04(c *core.Ctx, o Options) {
 		}
 		ok := len(sites) == 2 && len(sites["serve"]) == 1 && len(sites["Serve"]) == 1
 		c.Check(ok, "F4", m.what, "called from exactly one goroutine closure of each serve function", token.NoPos, fmt.Sprint(sites), fmt.Sprintf("call sites %v; expected one closure in Acceptor.serve and one in Initiator.Serve", sites))
+	}
+	// the inbound pump and the outbound pump are different goroutines: the hand-off to the handler (which can wait for the handler
+	// loop) must never keep the outgoing queue from being drained, and a slow socket write must never keep input from being handed on
+	for _, root := range []string{"serve", "Serve"} {
+		shared := ""
+		for _, w := range sitesOf["Write"][root] {
+			for _, r := range sitesOf["ServeIncoming"][root] {
+				if w == r {
+					shared = w
+				}
+			}
+		}
+		c.Check(shared == "" && len(sitesOf["Write"][root]) > 0 && len(sitesOf["ServeIncoming"][root]) > 0, "F4", root, "inbound hand-off and outbound write run in different goroutines", token.NoPos,
+			fmt.Sprintf("writer %v, forwarder %v", sitesOf["Write"][root], sitesOf["ServeIncoming"][root]),
+			fmt.Sprintf("goroutine %s both writes to the socket and hands input to the handler: while it waits in one, the other direction stalls (a handler answering from its loop then deadlocks with a full queue), and further input is never delivered", shared))
 	}
 	// writer closures: Write(msg) with the dequeued message; forwarders: ServeIncoming(msg) with the received one (F7)
 	for _, sf := range []string{"Acceptor.serve", "Initiator.Serve"} {
